@@ -25,7 +25,7 @@ EXTENDS Integers, Sequences, FiniteSets, TLC
 CONSTANT BugWriteErrorSwallowed
 
 \* aspects rejected when the header is processed (format validator, size limit, checksum kind)
-HeaderMuts == {"id", "sig", "sigkey", "attrzero", "attrdup", "attrempty", "ecattr", "nocnr", "noowner", "expired",
+HeaderMuts == {"id", "idsigned", "sig", "sigkey", "attrzero", "attrdup", "attrempty", "ecattr", "nocnr", "noowner", "expired",
                "parentid", "nochecksum", "tzchecksum", "toobig"}
 \* aspects that only the payload can reveal
 PayloadMuts == {"checksum", "sizeLess", "sizeMore", "streamShort", "streamLong"}
